@@ -391,22 +391,37 @@ def _one_real(args: tuple) -> dict:
         if spec.get('probe'):
             env['PYTHONPATH'] = f'{VERIF}/harness/probes:' + env['PYTHONPATH']
             env['NLV_PROBE'] = tmp
+            if spec.get('probe_nolog'):
+                env['NLV_PROBE_NOLOG'] = '1'
+            if spec.get('probe_dump_after'):
+                env['NLV_PROBE_DUMP_AFTER'] = str(spec['probe_dump_after'])
         if spec.get('switchinterval'):
             env['NLV_SWITCHINTERVAL'] = str(spec['switchinterval'])
         t0 = time.time()
+        # own session: whatever the run leaves behind (a child blocked in its exit handlers, …) is killed afterwards
+        proc = subprocess.Popen(['/venv/bin/python', '-m', 'harness.realrun', str(sp), str(op)], cwd=tmp, env=env,
+                                stdout=subprocess.PIPE, stderr=subprocess.PIPE, text=True, start_new_session=True)
         try:
-            p = subprocess.run(['/venv/bin/python', '-m', 'harness.realrun', str(sp), str(op)], cwd=tmp, env=env,
-                               stdout=subprocess.PIPE, stderr=subprocess.PIPE, text=True, timeout=hard_timeout)
-            rc, out, err = p.returncode, p.stdout, p.stderr
-        except subprocess.TimeoutExpired as e:
-            rc, out, err = -999, (e.stdout or b'').decode() if isinstance(e.stdout, bytes) else (e.stdout or ''), 'HARD-TIMEOUT'
-            subprocess.run(['pkill', '-9', '-f', str(sp)], check=False)
+            out, err = proc.communicate(timeout=hard_timeout)
+            rc = proc.returncode
+        except subprocess.TimeoutExpired:
+            rc, out, err = -999, '', 'HARD-TIMEOUT'
+        finally:
+            try:
+                os.killpg(proc.pid, 9)
+            except ProcessLookupError:
+                pass
+            try:
+                proc.communicate(timeout=5)
+            except Exception:
+                pass
         rec = json.loads(op.read_text()) if op.exists() else None
         child_log = []
         for f in sorted(Path(tmp).glob('probe-*.jsonl')):
             child_log += [json.loads(l) for l in f.read_text().splitlines() if l.strip()]
+        child_stacks = ''.join(f.read_text() for f in sorted(Path(tmp).glob('childstacks-*.txt')))
         return {'spec': spec, 'rec': rec, 'rc': rc, 'real_stdout': out, 'stderr': err[-2000:],
-                'child_log': child_log, 'wall_s': round(time.time() - t0, 2)}
+                'child_log': child_log, 'child_stacks': child_stacks, 'wall_s': round(time.time() - t0, 2)}
     finally:
         shutil.rmtree(tmp, ignore_errors=True)
 
